@@ -387,6 +387,82 @@ func c11Announcements(u *univ.Universe, tips map[string]int, thorough bool) []c1
 	return out
 }
 
+// c11Rewrites: the scripted peer claims the victim's own chain, makes the victim re-download blocks it already
+// has (by failing the header request that starts at the victim's tip, so that the victim falls back to an
+// older history entry) and serves them with the right ids but altered bodies. A v2 block id does not bind
+// the payout value or the v2 height, so only validation stands between such a block and the store.
+func c11Rewrites(u *univ.Universe, tips map[string]int) []c11scn {
+	var out []c11scn
+	tampers := []struct {
+		name string
+		f    func(b *types.Block)
+	}{
+		{"payout-value-x1000", func(b *types.Block) { b.MinerPayouts[0].Value = b.MinerPayouts[0].Value.Mul64(1000) }},
+		{"payout-value-zero", func(b *types.Block) { b.MinerPayouts[0].Value = types.ZeroCurrency }},
+		{"second-payout", func(b *types.Block) { b.MinerPayouts = append(b.MinerPayouts, b.MinerPayouts[0]) }},
+		{"v2-height+1", func(b *types.Block) {
+			if b.V2 != nil {
+				b.V2.Height++
+			}
+		}},
+		{"drop-transactions", func(b *types.Block) {
+			b.Transactions = nil
+			if b.V2 != nil {
+				b.V2.Transactions = nil
+			}
+		}},
+	}
+	for _, start := range []string{"T6", "T11", "T12", "C3", "A6"} {
+		for _, fails := range []int{1, 2, 3} {
+			for _, tm := range tampers {
+				for _, withH := range []bool{false, true} {
+					name := fmt.Sprintf("rewrite-known-blocks %s start=%s failedHeaderRequests=%d honestPeer=%v", tm.name, start, fails, withH)
+					out = append(out, c11scn{name, func() (string, string) {
+						hTip := -1
+						if withH {
+							hTip = tips["T12"]
+							if !heavier(u, hTip, tips[start]) {
+								hTip = -1
+							}
+						}
+						mut := &mutation{Name: "blk-" + tm.name, RPC: "SendV2Blocks", Nth: -1, Apply: func(b *byz, o gateway.Object) string {
+							r := o.(*gateway.RPCSendV2Blocks)
+							for i := range r.Blocks {
+								c := cloneBlock(r.Blocks[i])
+								tm.f(&c)
+								r.Blocks[i] = c
+							}
+							return ""
+						}}
+						r, err := newC11Rig(u, tips[start], hTip, tips[start], mut, "")
+						if err != nil {
+							return "harness:setup", err.Error()
+						}
+						defer r.close()
+						// the first header requests (starting at the victim's most recent blocks) are refused
+						r.b.onRequest = nil
+						refuse := fails
+						r.b.mu.Lock()
+						r.b.refuseHeaders = refuse
+						r.b.mu.Unlock()
+						if err := r.b.dial(r.c.mn, "10.66.0.1", r.v.addr); err != nil {
+							return "harness:dial", err.Error()
+						}
+						if hTip >= 0 {
+							if err := r.c.connect(0, 1); err != nil {
+								return "harness:connect", err.Error()
+							}
+						}
+						reached := r.settle(hTip, 60*time.Second)
+						return r.judge(name, hTip, reached, "")
+					}})
+				}
+			}
+		}
+	}
+	return out
+}
+
 // c11Requests: requests with out-of-range parameters sent to the victim; afterwards an honest peer connects
 // and the victim must still sync.
 func c11Requests(u *univ.Universe, tips map[string]int) []c11scn {
